@@ -17,6 +17,10 @@ claimed = {
  "C05": ("proof", "§4 C05", "Proved on /repo: a frame reaches the wrapped recorder only by consuming exactly one token (WriteFrame: base.writes delta == tokens-taken delta <= 1; Start/Stop never write), and the bucket is constructed with capacity floor(bucket-size secs)*fps, min length minSeconds*fps and rate minFrames/min-refill secs. The token-bucket law itself (tokens handed out in any interval <= capacity + refill earned) is the juju/ratelimit dependency's: its TakeAvailable/Available contracts are ASSUMED (contracts/ratelimit.spec).",
          "ASSUMED: juju/ratelimit Bucket contract (refill monotone, capped at capacity, TakeAvailable(1) hands out a token iff one is available); NewBucketWithRateAndClock's rate search; clock monotone. The wiring in cmd/thermal-recorder/main.go (Activate, MinSecs+PreviewSecs) is not yet under contract."),
  "C06": ("proof", "§4 C06", "StartRecording/WriteFrame/StopRecording/maybeStartRecording/CheckCanRecord of ThrottledRecorder are proved per case against the sink automaton of the wrapped recorder: within budget exactly one forwarded call with the same arguments and result; suppressed start / cut: exactly one WhenThrottled, clean stop, cut file holds >= minRecordingLength frames (invariant inFile+available >= min); mid-trigger restart only with available >= minRecordingLength and with the remembered background/threshold; failing base start leaves recording false; base sink protocol requires discharged at every call.", "ASSUMED: juju/ratelimit Bucket contract; wrapped recorder obeys the recorder.Recorder contract."),
+ "C07": ("proof", "§4 C07", "Layer 1 exact: absDiff/warmerDiff, abs/warmerDiffFrames (out = D(clamp(a),clamp(b)) on the interior, unchanged elsewhere), CountPixels/CountPixelsTwoCompare (= recursive count of pixels > delta, AND of both diffs), hasMotion (count >= count-thresh) are proved for every resolution and pixel value with quantified loop invariants. Layer 2 structural: pixelsChanged is proved to copy the frame into the floored ring, diff it against FrameLoop.Oldest() (= the frame gap frames earlier or the earliest since the mark, by the ring contract with size gap+1 from NewMotionDetector), choose warmer/abs and one/two-diff counting from the configuration, and return false on the first diff; Detect returns exactly pixelsChanged's answer. Not proved: an end-to-end statement over a ghost history of past frames' pixel contents (that the other diff slot still holds the previous frame's comparison is the ring's size-2 structure, not a content invariant).", "updateBackground is not involved with a fixed threshold (proved: not called)."),
+ "C08": ("proof", "§4 C08", "Functional postconditions that mention interior pixels only: the diff/count functions determine their outputs from the interior of their inputs (border of out unchanged, counts over the interior), so any implementation satisfying them is independent of border pixels; the cold-pixel part is the clamp cl(v,T) in those postconditions (lemma: v,v' <= T give equal cl). NewMotionDetector proves start/rowStop/columnStop from edge-pixels and the resolution.", "The background/threshold part rests on updateBackground's contract, which is ASSUMED (mode trusted) in this revision."),
+ "C09": ("proof", "§4 C09", "isAffectedByFFC (TimeOn-LastFFCTime < 10 s), Detect (affectedByFCC' = affected(frame); affected(frame) or previous-affected implies no motion; pixelsChanged called once with the previous flag), pixelsChanged (FFC branch re-marks the floored ring at the current frame and clears firstDiff; ghost epoch <= mark invariant so the compared frame is never older than the last FFC-affected frame), detector Reset (both rings reset, epoch 0) and MotionProcessor.Reset are proved.", "Independence is established at the level of which frames are compared (ring marks), not as a two-run relational statement over pixel contents; the dynamic-threshold provenance across Reset+FFC (DESIGN.md F5) is outside these contracts."),
+ "C15": ("proof", "§4 C15", "calculateThreshold is proved to yield floor(clamp(mean, min, max)) (defect F1 repaired); Detect is proved to recompute the threshold exactly when the background changed and more than preview frames have been seen, from updateBackground's returned mean, and to leave it untouched otherwise / during FFC / with a fixed threshold; startRecording is proved to hand the current background and threshold to the sink. ", "updateBackground's own contract (background <= frame on the interior, re-seed after FFC/first frame, returned mean) is ASSUMED in this revision (mode trusted); float32 weights are uninterpreted."),
  "C12": ("proof", "§4 C12", "The sink protocol (write only while open, no start while open) is a requires of the recorder.Recorder interface contract and is discharged at every call site of the three sinks for every fault placement; the processor invariant is proved to be re-established after every outcome; the automatic no-panic sweep (nil, index, slice bounds, division) covers every function under contract.", "Implementations of recorder.Recorder are assumed to refine the interface contract."),
  "C17": ("proof", "§4 C17", "processConstantRecorder/processSnapshot are proved per call: one write per frame, start iff the file is empty, stop iff maxFrames+1 (resp. 21) frames are in the file; Process calls them once per valid frame with the same frame.", ""),
  "C19": ("proof", "§3.1/§4 C19", "All ten FrameLoop functions are proved against an abstract history view (ghost base/mark): inv preserved, GetHistory = retained sequence numbers oldest first ending with the current frame, Oldest, CopyRecent, Reset, for every capacity >= 1 and every reachable state.", "cptvframe.NewFrame/CreateCopy contracts assumed (fresh storage)."),
